@@ -50,6 +50,8 @@ fn check_cfg(prop: &str, tier: Tier) -> Option<driver::CheckCfg> {
         "C17" => ("exploration", "one evaluation = a PeerConnection pair driven by an application task from creation through offer/answer, ICE, DTLS, SCTP/DCEP to steady traffic; at a planned crash point (one of 9 phase boundaries + a delta of 0..150 ms, or an absolute time) one terminating event {close, drop of every handle, close twice, peer DTLS close_notify, forged-with-session-keys SCTP ABORT / SHUTDOWN, ICE stop, total partition, close with a sender blocked on flow control} hits one side, optionally a second event races it 0..5 ms later. The systematic core (10 phases x 9 events x 2 sides) runs first, then seeded combinations over transport modes and media mixes. distinct = semantic trace hash; non-trivial = an event was applied."),
         "C06" => ("exploration", "one evaluation = one simulated run of scenario ice_stun: two real IceTransports A (10.0.0.1; role controlling or controlled; optionally behind the single-port shared-UDP mux) and B (10.0.0.2, opposite role) in WebRTC mode with UDP host candidates on the simulated network, and an attacker host M that injects STUN datagrams towards A built by the harness' own encoder (own HMAC-SHA1 MESSAGE-INTEGRITY and CRC32 FINGERPRINT): Binding requests with USERNAME {absent, wrong, right, swapped} x MESSAGE-INTEGRITY {absent, garbage, keyed with a wrong key, keyed with A's local password} x +-USE-CANDIDATE x FINGERPRINT {none, valid, wrong} x ICE-CONTROLLING/CONTROLLED/none x PRIORITY, and unsolicited success / 401 / 487 responses with random transaction ids, ids of already answered transactions of A or the newest id A used, from a fresh address, B's spoofed address, the address of a signalled-but-silent candidate of B, or M with B's port; delivered while A is New (before start), Checking (started, held there by a silent candidate of B until B is started) or Connected. The plan fixes the timeline (A start, B start, end), latencies, scheduler seed/deferral, the attacker packets and, in a quarter of the swarm runs, drop/dup/delay/late-dup/bit-flip rules on the genuine STUN datagrams. Run indices below 576 enumerate the systematic core USERNAME 3 x MI 4 x USE-CANDIDATE 2 x FINGERPRINT 2 x state 3 x role 2 x source {fresh, spoofed B} with one packet per run (thorough: four rounds, the later ones with other latencies, mux, early remote parameters, deferral); the other indices are swarm runs with 1-6 attacker packets; 7 % of them are attacker-free control runs in which any broken ledger invariant is a harness error. Oracle form: invariants over a ledger of what was delivered to A (every remote candidate address was signalled or is the source of a request with USERNAME '<A-ufrag>:...' and MESSAGE-INTEGRITY valid under A's password; the selected remote answered a transaction of A or sent such a request; Connected / nomination need a matching success response or an authenticated USE-CANDIDATE), checked after every attacker packet, every 500 ms and at the end, plus a before/after differential around each attacker packet that is judged only when nothing else was delivered to A and no API call was made on A from 500 ms before the packet to the second sample. distinct = semantic event trace (rig knobs, API steps, attacker packet variants with A's state at injection, every change of A's {state, nomination, selected remote, candidate set} in symbolic addresses, wire classes; no timestamps, lengths, ports or credentials) hashes to a value not seen before in the batch; non-trivial = at least one attacker packet was delivered while A was in the state the plan targets (knob target)."),
         "C09" => ("exploration", "one evaluation = one simulated run of scenario signaling: two full PeerConnections A and B on the fault-free simulated network (transport mode WebRtc / Srtp / Rtp; data channel and/or audio / video tracks; fresh, or negotiated once with transports still starting, or negotiated once and connected) execute a program of 1..12 API calls strictly in order, 0..50 ms of virtual time apart, while ICE gathering, connectivity checks, DTLS and SCTP run in the background under the seeded scheduler: create_offer(side), create_answer(side), set_local(side, what), set_remote(side, what), close(side), where `what` is the side's own latest create_* result, the peer's latest offer / answer carried as text (to_sdp_string -> SessionDescription::parse), a stale one from an earlier round, a duplicate of the last applied one, the same text typed pranswer, a rollback description, each optionally edited in transit (payload type, direction, a=mid, extra m-section, fingerprint changed / removed / sha-1, a=mid:65535, media kind swapped, duplicate mids, no m-sections, extmap id, a=crypto removed, c= address). Run indices below the exhaustive count enumerate EVERY program of length <= 3 (quick) / <= 4 (thorough) over the 16-symbol alphabet {A,B} x {create_offer, create_answer, set_local(own latest), set_remote(peer's latest offer), set_remote(peer's latest answer), set_local(pranswer), set_remote(rollback), close} on a fresh and on a once-negotiated connected pair in each of the three transport modes (index -> configuration = idx mod 6, program = idx div 6); the remaining indices are seeded longer programs assembled from complete rounds, glare (both sides create_offer + set_local before exchanging), provisional-answer rounds and random calls, with lost / duplicated / reordered / substituted calls and the full variant set. Reference model: the JSEP offer/answer machine over Stable / HaveLocalOffer / HaveRemoteOffer / Closed as rustrtc documents it (provisional answers keep the state, rollback is refused, Closed absorbs; a call JSEP allows may still be refused, then nothing may change). Oracles: C09.state after every call and after idle periods; C09.atomic on every Err: signaling state, local and remote description text (modulo a=candidate / a=end-of-candidates lines), transceiver count and every transceiver's identity, mid, direction, kind, sorted payload map and sorted extmap equal their values before the call. A call whose source description does not exist yet (or whose edited text no longer parses) cannot be made and is skipped (other_stats.ops_skipped); a call that panics ends the program (C07's subject, probe.call_panicked). distinct = semantic event trace (rig configuration, per call: side, call and description type, source and edit selector, model state before, Ok / error class, state after; no timestamps, lengths or SDP text) hashes to a value not seen before in the batch; non-trivial = at least one call returned Err while the callee already held a description or a transceiver, or the program applied a stale or duplicate description, or an offer arrived at a side that had a local offer pending (glare)."),
+        "C04" => ("exploration", "one evaluation = one simulated SRTP history under a plan expanded from (VERIF_SEED, run index): profile (AES_CM_128_HMAC_SHA1_80/_32, AEAD_AES_128_GCM, NULL cipher), random master key/salt, 1..4 SSRCs with start sequence numbers biased to 65535/32768, 10^2..2*10^5 RTP packets (0..3 sequence wraps) with per-packet header shapes (CSRC 0..15, one-/two-byte/generic extensions, padding, marker) and payload 0..1400, compound RTCP with growing SRTCP index; protected by a rustrtc SrtpSession and by webrtc-srtp, sent over an in-module link that drops, bursts, duplicates, holds and reorders (windows 1..40000) from plan sub-seeds; every delivery is unprotected by rustrtc, by webrtc-srtp and (reference-protected wire) by a second rustrtc session and judged against an RFC 3711 index model. distinct = semantic trace (per op: kind, SSRC set, log2 size, wraps crossed, fault kinds fired, outcome classes) not seen before; non-trivial = at least one link fault fired and at least one packet was delivered. (last,current) sequence pairs are sampled with boundary bias, not enumerated. Excluded from C04.interop (counted under other_stats excluded.*): NULL cipher (webrtc-srtp has none), duplicate deliveries, and deliveries where webrtc-srtp's documented rollover estimator (tracks the last, not the highest, index; no ROC-1 guess below 2^15) and RFC 3711 disagree."),
+        "C05" => ("exploration", "one evaluation = one simulated SRTP history as for C04 (rustrtc sender, in-module faulty link) in which a receiver under test also gets attacker traffic and a shadow rustrtc receiver gets only the genuine packets in the same order: EVERY single-bit flip, EVERY truncation length and 1..4 appended bytes of sampled genuine SRTP/SRTCP packets, random multi-bit flips, sequence numbers rewritten far ahead (1..65535), unseen SSRCs (up to hundreds), forged SRTCP E|index words (2^31-1, E clear, +1), SSRC/body/tag splices, random datagrams, cross-protocol delivery, interleaved with genuine traffic and with virtual clock jumps below and above 60 s. Forged datagrams are demultiplexed like RtpTransport (is_rtcp). distinct = semantic trace (per op: kind, forgery kind, log2 size, fault kinds, outcome classes) not seen before; non-trivial = at least one forged datagram reached the receiver and at least one genuine packet was delivered (and accepted) after it. A forged packet whose truncated HMAC tag is valid by chance (2^-32 per attempt for _32) is recognised with an independent HMAC and counted as escape.truncated_tag_collision."),
         _ => return None,
     };
     let mut base_assumptions = base_assumptions;
